@@ -2,6 +2,7 @@ package gbnprop
 
 import (
 	"fmt"
+	"strings"
 	"sync"
 	"testing"
 	"time"
@@ -259,6 +260,9 @@ type windowMonitor struct {
 	// direction, lastRecv the time the last packet was handed over on a link.
 	lastNew  [2]int64
 	lastRecv [2]int64
+	// lastNewPing is the time of the last first transmission of a keepalive
+	// ping per sending direction (0 if none).
+	lastNewPing [2]int64
 	// cumAck counts ACKs that acknowledged more than the window base (an
 	// earlier ACK was lost), nackBump NACKs that moved the base.
 	cumAck, nackBump int
@@ -272,6 +276,16 @@ func (w *windowMonitor) noNewSince(d int, t int64) bool {
 	w.mu.Lock()
 	defer w.mu.Unlock()
 	return w.lastNew[d] <= t
+}
+
+// pingOutstanding reports whether the endpoint sending on direction d has
+// sent a new keepalive ping strictly after the last packet that was handed to
+// it, i.e. whether its pong timer is armed: the timer is started by a new
+// ping and paused by any received packet.
+func (w *windowMonitor) pingOutstanding(d int) bool {
+	w.mu.Lock()
+	defer w.mu.Unlock()
+	return w.lastNewPing[d] > 0 && w.lastNewPing[d]-1 > w.lastRecv[1-d]
 }
 
 func dirIdx(d string) int {
@@ -293,6 +307,9 @@ func (w *windowMonitor) observe(e vnet.TraceEvent) {
 		d := dirIdx(e.Dir)
 		if int64(e.Seq) == w.top[d]%s {
 			w.lastNew[d] = e.T
+			if strings.Contains(e.Fl, "P") {
+				w.lastNewPing[d] = e.T + 1
+			}
 			w.top[d]++
 			out := w.top[d] - w.base[d]
 			if out > w.peak[d] {
@@ -546,7 +563,7 @@ func TestC09Blocking(t *testing.T) {
 	rapid.Check(t, func(rt *rapid.T) {
 		c := blockCase{
 			N:       genN().Draw(rt, "n"),
-			K:       rapid.IntRange(1, 5).Draw(rt, "k"),
+			K:       rapid.OneOf(rapid.IntRange(1, 5), rapid.IntRange(1, 60)).Draw(rt, "k"),
 			FwdMs:   rapid.SampledFrom([]int{0, 1, 10, 100, 900}).Draw(rt, "fwd"),
 			RevMs:   rapid.SampledFrom([]int{1, 10, 100, 900, 3000}).Draw(rt, "rev"),
 			FromSrv: rapid.Bool().Draw(rt, "from_srv"),
